@@ -67,6 +67,7 @@ def run(ctx):
             d1.fail('MaterialIndexer._get_index_data', 'evict-before-store', 'trim_cache is not called right after the new entry is stored', g, st)
     memo(ctx, d2)
     schema(ctx, d3)
+    material_schema(ctx, d3)
     handed_out(ctx, d4)
     name_table(ctx, d5)
     d7 = ctx.rule('D7', 'parallel per-name tables (members, compositions) are derived from their inputs without re-ordering', floor=1)
@@ -415,6 +416,108 @@ def schema(ctx, d3):
         d3.ok('get_sparse_chemical_data', 'reader: kind 0 -> dct.get(index); kind 3 -> one lookup per listed position', r)
     else:
         d3.fail('get_sparse_chemical_data', 'reader-changed', 'the reader no longer interprets kind 0 / 3 as (one position / list of positions)', r, r.node)
+
+
+def material_schema(ctx, d3):
+    """MaterialIndexer: the writer (_get_index_and_kind) hands (index, kind) to the readers (__getitem__, __setitem__).  The readers
+    branch on `kind is None`: there `index` is one row position (or None = all rows); otherwise it is unpacked into (phase position,
+    chemical index).  So on every writer path: kind None <=> index is not a pair.  The kind may come from the chemicals' own lookup,
+    which returns None for the ellipsis: a writer path that pairs the phase with whatever kind comes back, untested, builds a pair with
+    kind None for the documented key [phase, ...] and the readers subscript the row list with a tuple (TypeError)."""
+    prog = ctx.prog
+    mi = prog.cls('MaterialIndexer', IX)
+    w = mi.methods.get('_get_index_and_kind')
+    if w is None:
+        raise AnalysisError('MaterialIndexer._get_index_and_kind not found')
+    # readers: what they do with index under each outcome of `kind is None`
+    from ..pathcond import implied2 as _imp2, resolved_conds as _rcs
+    from ..resolve import resolved as _res, path_defs as _pd
+
+    def none_test(name):
+        return (lambda t: isinstance(t, ast.Compare) and len(t.ops) == 1 and isinstance(t.ops[0], ast.Is) and src(t.left) == name
+                and isinstance(t.comparators[0], ast.Constant) and t.comparators[0].value is None,
+                lambda t: isinstance(t, ast.Compare) and len(t.ops) == 1 and isinstance(t.ops[0], ast.IsNot) and src(t.left) == name
+                and isinstance(t.comparators[0], ast.Constant) and t.comparators[0].value is None)
+    expect = {}       # kind-is-None outcome -> {'pair', 'scalar'}
+    for rname in ('__getitem__', '__setitem__'):
+        r = mi.methods.get(rname)
+        if r is None:
+            raise AnalysisError('MaterialIndexer.%s not found' % rname)
+        # the locals the reader unpacks the writer's result into: index, kind, ... = self._get_index_data(key)
+        names = None
+        for n in walk_no_nested(prog.normal_form(r)):
+            if isinstance(n, ast.Assign) and isinstance(n.targets[0], ast.Tuple) and isinstance(n.value, ast.Call) \
+                    and src(n.value.func) in ('self._get_index_data', 'self._get_index_and_kind') and len(n.targets[0].elts) >= 2 \
+                    and all(isinstance(x, ast.Name) for x in n.targets[0].elts[:2]):
+                names = (n.targets[0].elts[0].id, n.targets[0].elts[1].id)
+                third = n.targets[0].elts[2].id if len(n.targets[0].elts) > 2 and isinstance(n.targets[0].elts[2], ast.Name) else None
+        if names is None:
+            raise AnalysisError('MaterialIndexer.%s: unpacking of the (index, kind) entry not found' % rname)
+        iname, kname = names
+        pos, neg = none_test(kname)
+        ps, _ = run_paths(prog.normal_form(r), follow_except=False, max_paths=4000)
+        for p in ps:
+            if p.raised:
+                continue
+            kn = _imp2(p.conds, pos, neg)
+            if kn is None:
+                continue
+            # entries of the chemicals' own lookup (summed across phases) are not this writer's: only the per-phase branch counts
+            if third is not None and implied(p.conds, lambda t: isinstance(t, ast.Name) and t.id == third) is not False:
+                continue
+            unpacked = any(e.kind == 'assign' and isinstance(e.stmt, ast.Assign) and isinstance(e.stmt.targets[0], ast.Tuple)
+                           and isinstance(e.stmt.value, ast.Name) and e.stmt.value.id == iname for e in p.events)
+            scalar = any(isinstance(x, ast.Subscript) and isinstance(x.slice, ast.Name) and x.slice.id == iname
+                         for e in p.events if isinstance(e.stmt, (ast.Assign, ast.AugAssign, ast.Expr, ast.Return)) for x in ast.walk(e.stmt)) or \
+                any(src(t) in ('%s is None' % iname, '%s is not None' % iname) for t, _o in p.conds if not isinstance(t, str))
+            if unpacked:
+                expect.setdefault(kn, set()).add('pair')
+            if scalar:
+                expect.setdefault(kn, set()).add('scalar')
+    if expect.get(True) != {'scalar'} or expect.get(False) != {'pair'}:
+        d3.fail('MaterialIndexer.__getitem__', 'reader-changed', 'the readers no longer treat (kind None -> one row position / all rows) and (kind not None -> '
+                '(phase position, chemical index)): found %s' % {k_: sorted(v_) for k_, v_ in expect.items()}, mi.methods['__getitem__'], mi.methods['__getitem__'].node)
+        return
+    d3.ok('MaterialIndexer.__getitem__', 'readers: kind None -> index is a row position or None; otherwise index is unpacked into (phase position, chemical index)',
+          mi.methods['__getitem__'])
+    # the chemicals' lookup may return kind None (the ellipsis)
+    cc = prog.cls('CompiledChemicals', CH).methods.get('_get_index_and_kind')
+    callee_may_none = cc is None or any(isinstance(n, ast.Assign) and isinstance(n.value, ast.Constant) and n.value.value is None
+                                        and any('kind' == src(t) for t in n.targets) for n in walk_no_nested(cc.node))
+    wn = prog.normal_form(w)
+    ps, _ = run_paths(wn, follow_except=False, max_paths=4000)
+    n_paths = 0
+    bad = None
+    for p in ps:
+        if p.raised or p.ret_node is None or not isinstance(p.ret_node.value, ast.Tuple) or len(p.ret_node.value.elts) < 2:
+            continue
+        n_paths += 1
+        defs = _pd(p)
+        idx = _res(p.ret_node.value.elts[0], defs, keep=set(w.params))
+        kind_e = p.ret_node.value.elts[1]
+        kres = _res(kind_e, defs, keep=set(w.params))
+        shape = 'pair' if isinstance(idx, ast.Tuple) and len(idx.elts) == 2 else 'scalar'
+        if isinstance(kres, ast.Constant):
+            kn = kres.value is None
+        else:
+            kname = src(kind_e)
+            pos, neg = none_test(kname)
+            kn = _imp2(p.conds, pos, neg)
+            if kn is None:
+                # the kind comes back from the chemicals' lookup, untested on this path
+                from_lookup = any(isinstance(x, ast.Call) and src(x.func).endswith('._get_index_and_kind') for x in ast.walk(kres))
+                kn = 'maybe' if (from_lookup and callee_may_none) else False
+        if shape == 'pair' and kn in (True, 'maybe'):
+            bad = (p, 'a (phase position, chemical index) pair is returned with a kind that %s None (the chemicals\' lookup returns kind None for the ellipsis): for the key '
+                   '[phase, ...] the readers take the kind-None branch and subscript the row list with the pair (TypeError)' % ('is' if kn is True else 'may be'))
+        elif shape == 'scalar' and kn is False:
+            bad = (p, 'a single position is returned with a kind that is not None: the readers unpack it into (phase position, chemical index)')
+    if not n_paths:
+        raise AnalysisError('MaterialIndexer._get_index_and_kind: no returning path')
+    if bad:
+        d3.fail('MaterialIndexer._get_index_and_kind', 'entry-shape', bad[1], w, bad[0].ret_node)
+    else:
+        d3.ok('MaterialIndexer._get_index_and_kind', 'on all %d returning paths: kind None <=> the index is one row position / None, otherwise a (phase, chemical) pair' % n_paths, w)
 
 
 def handed_out(ctx, d4):
